@@ -120,6 +120,37 @@ fn main() {
                 }
             }
         }
+    } else if mode == "replay" {
+        // re-execute recorded operations (a "state" record followed by operations)
+        let j: J = serde_json::from_str(&std::fs::read_to_string(args.str("script", "")).unwrap()).unwrap();
+        let mut b = BuddyHandle::new(1, cap);
+        for ev in j["events"].as_array().unwrap() {
+            let mut out = ev.clone();
+            match ev["e"].as_str().unwrap() {
+                "state" => {
+                    let len = ev["len"].as_u64().unwrap() as u32;
+                    let free: Vec<u64> = ev["free"].as_array().unwrap().iter().map(|x| x.as_u64().unwrap()).collect();
+                    b = BuddyHandle::new(len, cap);
+                    for p in 0..len {
+                        if !free.contains(&u64::from(p)) {
+                            assert!(b.record_alloc(p, 0));
+                        }
+                    }
+                }
+                "alloc" => out["r"] = json!(b.alloc(ev["o"].as_u64().unwrap() as u8).map_or(vec![], |x| vec![x])),
+                "alloc_lowest" => out["r"] = json!(b.alloc_lowest(ev["o"].as_u64().unwrap() as u8).map_or(vec![], |x| vec![x])),
+                "free" => {
+                    b.free(ev["i"].as_u64().unwrap() as u32, ev["o"].as_u64().unwrap() as u8);
+                }
+                "record" => out["r"] = json!(b.record_alloc(ev["i"].as_u64().unwrap() as u32, ev["o"].as_u64().unwrap() as u8)),
+                "resize" => b.resize(ev["n"].as_u64().unwrap() as u32),
+                "roundtrip" => b.roundtrip(),
+                _ => unreachable!(),
+            }
+            out["cap"] = json!(cap);
+            tw.write(&obs(&b, out));
+            ops += 1;
+        }
     } else {
         let steps = args.u64("steps", 2000);
         let mut rng = StdRng::seed_from_u64(seed);
